@@ -110,6 +110,12 @@ func (g *DependencyGraph) AddProvider(provider Provider) error {
 		}
 		g.nodes[nodeKey] = node
 	}
+
+	// Remember what is replaced so that a rejected add can be undone completely
+	prevProvider, prevDependencies := node.Provider, node.Dependencies
+	prevEdges, hadEdges := g.edges[nodeKey]
+	var createdNodes []NodeKey
+
 	node.Provider = provider
 
 	// Clear existing edges for this node (in case of replacement)
@@ -133,6 +139,7 @@ func (g *DependencyGraph) AddProvider(provider Provider) error {
 				Dependencies: make([]NodeKey, 0),
 				Dependents:   make([]NodeKey, 0),
 			}
+			createdNodes = append(createdNodes, depKey)
 		}
 	}
 
@@ -148,9 +155,21 @@ func (g *DependencyGraph) AddProvider(provider Provider) error {
 
 	// Check for cycles immediately
 	if err := g.detectCyclesFrom(nodeKey); err != nil {
-		// Remove the node if it creates a cycle
-		delete(g.nodes, nodeKey)
-		delete(g.edges, nodeKey)
+		// Leave the graph exactly as it was before this call
+		if exists {
+			node.Provider, node.Dependencies = prevProvider, prevDependencies
+			if hadEdges {
+				g.edges[nodeKey] = prevEdges
+			} else {
+				delete(g.edges, nodeKey)
+			}
+		} else {
+			delete(g.nodes, nodeKey)
+			delete(g.edges, nodeKey)
+		}
+		for _, created := range createdNodes {
+			delete(g.nodes, created)
+		}
 		g.updateDegrees()
 		return err
 	}
